@@ -5,6 +5,7 @@
    well-formed = NoDup (ids t). *)
 From Coq Require Import List Arith Bool Permutation.
 From PTN Require Import Tree.RTree Tree.RTreeProofs Sched.BUG Sched.BUGProofs Trunc.Select Trunc.SelectProofs.
+From PTN Require TTN.Store TTN.Canon TTN.Inv TTN.CanonTree Contr.Blocks Contr.Closed Evo.BUGStore Evo.BUGStoreProofs.
 Import ListNotations.
 Local Close Scope Q_scope.
 
@@ -136,6 +137,116 @@ Theorem C09_overlap_contraction :
   contraction V N norm le (fun v => UoldH (Unew v)).
 Proof. exact overlap_contraction. Qed.
 Print Assumptions C09_overlap_contraction.
+
+(* ---- Layer W: the structural effect of one step on stores (Evo/BUGStore.v over the frozen store model) --------- *)
+(* `BUGStore.root_update fixed bcoff tmp t cs`: root_update of common_bug.py on the state `fst cs` with recorded centre
+   `snd cs`; identifiers of the temporary "<n>_basis_change_tensor" nodes are n + bcoff, `tmp` is the uuid of the R
+   factor in move_orthogonalization_center, `t` lists the children of every node in the order the loops over
+   frozenset(children) visited them.  All statements: for EVERY well-formed store (executable invariant `wfb`), every
+   tree shape, both variants, whenever the model accepts the step (that it does on the explored instances, with the
+   observation of the result equal to the implementation's, is checked on every run: harness/props/c09w.py). *)
+
+(* (a) the returned state has exactly the original identifiers, parent pointers and children sets; every temporary
+   basis-change node is gone; root unchanged; the recorded centre is the root; the global tables only grew *)
+Theorem C09_store_structure : forall (fixed : bool) (bcoff : nat) (tmp : Store.id) (t : rtree) (cs cs' : Canon.cstore),
+  Inv.wfb (fst cs) = true ->
+  (forall k, In k (Store.akeys (Store.nodes (fst cs))) -> Store.aget (BUGStore.bcid bcoff k) (Store.nodes (fst cs)) = None) ->
+  Store.aget tmp (Store.nodes (fst cs)) = None ->
+  BUGStore.root_update fixed bcoff tmp t cs = Some cs' ->
+  CanonTree.same_tree (Store.nodes (fst cs)) (Store.nodes (fst cs')) /\
+  CanonTree.tstruct (Store.nodes (fst cs')) /\
+  (forall k, In k (Store.akeys (Store.nodes (fst cs))) -> Store.aget (BUGStore.bcid bcoff k) (Store.nodes (fst cs')) = None) /\
+  Store.root (fst cs') = Store.root (fst cs) /\ snd cs' = Store.root (fst cs') /\ Store.root (fst cs') = Some (rid t) /\
+  BUGStoreProofs.grows (fst cs) (fst cs') /\
+  (forall k, In k (Store.akeys (Store.nodes (fst cs'))) -> k <> rid t -> BUGStoreProofs.Qnode (fst cs') k) /\
+  (forall k kn, Store.aget k (Store.nodes (fst cs)) = Some kn -> Store.parent kn <> None ->
+                exists kn', Store.aget k (Store.nodes (fst cs')) = Some kn' /\ Store.parent kn' = Store.parent kn).
+Proof. exact BUGStoreProofs.root_update_effect. Qed.
+Print Assumptions C09_store_structure.
+
+(* (b) the returned state is canonical at the root: the executable isometry check of C03 accepts it, i.e. every
+   non-root tensor is exactly one Q atom of a QR kernel call whose new bond wire is the node's parent leg *)
+Theorem C09_store_canonical_root : forall (fixed : bool) (bcoff : nat) (tmp : Store.id) (t : rtree) (cs cs' : Canon.cstore),
+  Inv.wfb (fst cs) = true ->
+  (forall k, In k (Store.akeys (Store.nodes (fst cs))) -> Store.aget (BUGStore.bcid bcoff k) (Store.nodes (fst cs)) = None) ->
+  Store.aget tmp (Store.nodes (fst cs)) = None ->
+  BUGStore.root_update fixed bcoff tmp t cs = Some cs' -> Canon.iso_check cs' = true.
+Proof. exact BUGStoreProofs.root_update_iso. Qed.
+Print Assumptions C09_store_canonical_root.
+
+(* what Qnode says, spelled out *)
+Theorem C09_store_qnode_spelled : forall (g : Store.store) (k : Store.id), BUGStoreProofs.Qnode g k <->
+  exists nd t a df, Store.aget k (Store.nodes g) = Some nd /\ Store.aget k (Store.tensors g) = Some t /\ Store.atoms t = [a] /\
+    1 <= length (Store.perm nd) /\ In df (Store.defs g) /\ Store.kq df = a /\ Store.kkind df = 0 /\
+    Store.kbond df = nth (nth 0 (Store.perm nd) 0) (Store.axes t) 0.
+Proof. exact (fun g k => conj (fun x => x) (fun x => x)). Qed.
+Print Assumptions C09_store_qnode_spelled.
+
+(* one step of update_node on a subtree, all clauses (the induction behind the two theorems above) *)
+Theorem C09_store_update_node : forall (fixed : bool) (bcoff : nat) (tmp : Store.id) (t : rtree),
+  BUGStoreProofs.P fixed bcoff tmp t.
+Proof. exact BUGStoreProofs.update_node_effect. Qed.
+Print Assumptions C09_store_update_node.
+
+(* (c) shapes, local rule: the new basis of a non-root, non-leaf node whose evolved tensor u has the legs (parent,
+   children..., open...) has the legs (new bond, children..., open...), and the dimension entered for the new bond is
+   Sched/BUG.v's qr_new_leg applied to the product of the other legs and to r (fixed rank, KEEP) resp. r_old + r
+   (rank-adaptive: concatenation along the parent leg, REDUCED); fixed rank: the shape of u is kept.  That shape_root
+   of Sched/BUG.v predicts ALL shapes of the store model's result is checked per explored instance (shapes_agree). *)
+Theorem C09_store_new_basis_shape : forall (fixed : bool) (g : Store.store) (nd : Store.node) (oldt u : Store.sarr)
+    (g' : Store.store) (newb : Store.sarr),
+  BUGStore.new_basis fixed g nd oldt u = Some (g', newb) -> Store.parent nd <> None ->
+  length (Store.axes u) = Store.nlegs nd -> Store.nvirt nd <= Store.nlegs nd -> Store.axes oldt = Store.axes u ->
+  BUGStoreProofs.dims_ok g -> (forall w, In w (Store.axes u) -> w < Store.next_wire g) ->
+  exists nw, Store.axes newb = nw :: tl (Store.axes u) /\
+    let du := map (Store.wdim g) (Store.axes u) in
+    let cols := if fixed then hd 0 du else hd 0 (map (Store.wdim g) (Store.axes oldt)) + hd 0 du in
+    In (nw, qr_new_leg fixed (Store.prod_list (tl du)) cols) (Store.dims g') /\
+    (fixed = true -> map (Store.wdim g') (Store.axes newb) = map (Store.wdim g') (Store.axes u)).
+Proof. exact BUGStoreProofs.new_basis_shape. Qed.
+Print Assumptions C09_store_new_basis_shape.
+
+Theorem C09_store_qr_rule_agrees : forall rows cols : nat,
+  Store.qr_bond_dim Store.Keep rows cols = qr_new_leg true rows cols /\
+  Store.qr_bond_dim Store.Reduced rows cols = qr_new_leg false rows cols.
+Proof. exact BUGStoreProofs.qr_bond_new_leg. Qed.
+Print Assumptions C09_store_qr_rule_agrees.
+
+(* (d) the basis-change matrix M_n as a diagram: compute_basis_change_tensor = contract_any_nodes is the block
+   recursion of Contr/Blocks.v between the state of old bases and the conjugated copy (offset wires / atoms) of the
+   state of new bases, the children's matrices being the recursive calls.  Whenever the subtree of n is a consistent
+   pair of states in the two stores (checker bc_okb; true for every non-root node of every explored instance): two
+   legs [old parent wire of n; conjugated new parent wire of n]; atoms = the old atoms and the conjugated new atoms of
+   the subtree of n, each exactly once; every edge wire of both states strictly inside the subtree is bound (children
+   legs are paired through the children's matrices); the glued pairs are exactly (old open wire of k, conjugated new
+   open wire of k) for the nodes k of the subtree *)
+Theorem C09_store_bc_diagram : forall (woff aoff : nat) (old new : Store.store) (n : Store.id),
+  BUGStore.bc_okb woff aoff old new n = true ->
+  exists p t g,
+    (exists nd, Store.aget n (Store.nodes old) = Some nd /\ Store.parent nd = Some p) /\
+    Closed.tree_of (S (length (Store.nodes old))) old n = Some t /\
+    BUGStore.bc_diagram woff aoff old new n p = Some g /\
+    let bra := BUGStore.conj_store woff aoff new in
+    Blocks.gaxes g = [Closed.up_wire old n; Closed.up_wire bra n] /\
+    Permutation (Blocks.gatoms g) (Closed.all_atoms old bra (Closed.rnodes t)) /\
+    Permutation (Blocks.gbnd g) (Closed.edge_wires old bra (Closed.rdesc t) ++ Closed.inner_bnd old bra (Closed.rnodes t)) /\
+    Permutation (Blocks.gglue g) (Closed.open_pairs old bra (Closed.rnodes t)).
+Proof. exact BUGStoreProofs.bc_diagram_closed. Qed.
+Print Assumptions C09_store_bc_diagram.
+
+Example C09_example_store :
+  (let s0 := fst (Store.run Store.empty_store
+                    [Store.AddRoot 0 [2; 2; 3]; Store.AddChild 1 [2; 2; 2] 0 0 0; Store.AddChild 2 [2; 3] 0 0 1;
+                     Store.AddChild 3 [2; 2] 0 1 1]) in
+   (Inv.wfb s0,
+    match BUGStore.root_update false 30 70 (RNode 0 [RNode 2 []; RNode 1 [RNode 3 []]]) (s0, Some 0) with
+    | Some cs' => (Canon.iso_check cs', Inv.wfb (fst cs'), map fst (Store.nodes (fst cs')),
+                   BUGStore.shapes_agree false (RNode 0 [RNode 2 []; RNode 1 [RNode 3 []]]) s0 (fst cs'),
+                   BUGStore.bc_all_okb 400 200 s0 (fst cs'))
+    | None => (false, false, [], false, false)
+    end)) = (true, (true, true, [0; 1; 2; 3], true, true)).
+Proof. vm_compute. reflexivity. Qed.
+Print Assumptions C09_example_store.
 
 (* ---- non-vacuity ---------------------------------------------------------------------------------- *)
 Example C09_example_trace :
